@@ -269,7 +269,7 @@ public:
         }
         else
         {
-            image tmp(dims, alignment);
+            image tmp(dims, alignment, _alloc); // allocate from this image's allocator, not from Alloc()
             swap(tmp);
         }
     }
@@ -294,7 +294,7 @@ public:
         }
         else
         {
-            image tmp(dims, p_in, alignment);
+            image tmp(dims, p_in, alignment, _alloc); // allocate from this image's allocator, not from Alloc()
             swap(tmp);
         }
     }
